@@ -54,6 +54,7 @@ type Draw struct {
 type axEntry struct {
 	fact      *Term
 	permanent bool
+	fpSafe    bool // also true of the rounded binary64 function
 }
 
 type footprint struct {
@@ -272,6 +273,9 @@ func (ex *Exec) addPC(c *Term) {
 	ex.sol.Assert(c)
 	axs, _ := ex.relevantAxioms([]*Term{c})
 	for _, e := range axs {
+		if ex.fpMode && !e.fpSafe {
+			continue // a fact of the real function need not hold of the rounded one (exp(x) > 0 underflows)
+		}
 		e.permanent = true
 		ex.sol.Assert(e.fact)
 	}
